@@ -594,9 +594,9 @@ func genScalar(rng *h.Rng, thorough bool, emit func(string)) {
 		emit(fmt.Sprintf("api unmarshal %s", hx32(v)))
 		emit(fmt.Sprintf("api setbytes %s", hx32(v)))
 	}
-	n := 300
+	n := 3000
 	if thorough {
-		n = 6000
+		n = 30000
 	}
 	for i := 0; i < n; i++ {
 		emit(fmt.Sprintf("sc muladd %s %s %s", hx32(pick()), hx32(pick()), hx32(pick())))
@@ -694,7 +694,7 @@ func messages(rng *h.Rng, thorough bool) []string {
 }
 
 func genSign(rng *h.Rng, thorough bool, emit func(string)) {
-	nkeys := 24
+	nkeys := 40
 	if thorough {
 		nkeys = 300
 	}
@@ -726,9 +726,9 @@ func genSign(rng *h.Rng, thorough bool, emit func(string)) {
 }
 
 func genMut(rng *h.Rng, thorough bool, emit func(string)) {
-	nbase := 6
+	nbase := 10
 	if thorough {
-		nbase = 10
+		nbase = 12
 	}
 	for i := 0; i < nbase; i++ {
 		seed, k := h.Hex(rng.Bytes(32)), nonce(rng)
@@ -772,12 +772,39 @@ func genMut(rng *h.Rng, thorough bool, emit func(string)) {
 	}
 }
 
-var exhaustive bool
+// signatures whose S has a zero top byte (found with crypto/ed25519 alone): dropping the last byte
+// loses no information, so a verifier that tolerates 63 bytes would accept them
+func genShortS(rng *h.Rng, thorough bool, emit func(string)) {
+	n := 2
+	if thorough {
+		n = 10
+	}
+	for i := 0; i < n; i++ {
+		seed := rng.Bytes(32)
+		priv := ed25519.NewKeyFromSeed(seed)
+		for c := 0; c < 4000; c++ {
+			msg := append(rng.Bytes(6), byte(c), byte(c>>8))
+			if sig := ed25519.Sign(priv, msg); sig[63] == 0 {
+				p := fmt.Sprintf("mut %s %s x%s s ", h.Hex(seed), nonce(rng), h.Hex(msg))
+				emit(p + "none")
+				emit(p + "trunc:63")
+				emit(p + "trunc:62")
+				emit(p + "ext:00")
+				emit(p + "splus")
+				break
+			}
+		}
+	}
+}
 
 func gen(tier string, rng *h.Rng, emit func(string)) {
 	thorough := tier == "thorough"
+	// h.NewRng(seed) and h.NewRng(seed+1) are the same SplitMix64 stream shifted by one draw;
+	// re-seed from the first output so that different VERIF_SEEDs give unrelated case sets
+	rng = h.NewRng(rng.U64())
 	genScalar(rng, thorough, emit)
 	genPoints(rng, thorough, emit)
 	genSign(rng, thorough, emit)
 	genMut(rng, thorough, emit)
+	genShortS(rng, thorough, emit)
 }
